@@ -89,6 +89,7 @@ class Case:
         self.sig = None
         self.nontrivial = True
         self.maxerr = 0.0
+        self.gdev = 0.0  # max difference between the documented g table and the package's lookup for B_field/H
         self.therm = 0.0  # max relative disagreement of the object's m_dot, c_p, R_b* with the independent references
         self.skip = None
         self.cost_line = None
@@ -144,6 +145,50 @@ def make_coords(rng, n):
     b = 5.0
     pts = [(b * (i % side), b * (i // side)) for i in range(n)]
     return pts
+
+
+B_TABLE = 5.0  # spacing the synthetic long-time tables are stored for
+
+
+def documented_g_table(ghe, truth):
+    """(x, y) of the combined g-function the documentation prescribes for this field, built by the harness:
+    the stored long-time family interpolated IN HEIGHT at h_eq = H * B_table / B_field (the polynomial through the stored
+    heights: the curve itself for one, linear for two, the parabola for three), preceded by the short-time points that lie
+    before the first long-time abscissa.  The short-time table is the object's (C10's subject); the table radius equals
+    the borehole radius, so there is no radius correction."""
+    hs, fam, he = truth["heights"], truth["g_lts"], truth["h_eq"]
+    lts = []
+    for j in range(len(truth["log_time"])):
+        acc = 0.0
+        for a, ha in enumerate(hs):  # Lagrange form
+            w = 1.0
+            for b_, hb in enumerate(hs):
+                if b_ != a:
+                    w *= (he - hb) / (ha - hb)
+            acc += w * fam[a][j]
+        lts.append(acc)
+    x0 = truth["log_time"][0]
+    sx = [float(v) for v in ghe.radial_numerical.lntts]
+    sy = [float(v) for v in ghe.radial_numerical.g]
+    keep = [(a, b_) for a, b_ in zip(sx, sy) if a < x0]
+    return [a for a, _ in keep] + list(truth["log_time"]), [b_ for _, b_ in keep] + lts
+
+
+def g_tables(c, ghe, truth, replay_cfg):
+    """The documented table (used by the oracle and handed to the model) and its cross-check against what the package's
+    own lookup gives for the field's B/H."""
+    gx, gy = documented_g_table(ghe, truth)
+    g, _ = ghe.grab_g_function(ghe.B_spacing / float(ghe.bhe.b.H))
+    px, py = [float(v) for v in g.x], [float(v) for v in g.y]
+    r = "1" if truth["B_field"] == truth["B_table"] else f"{truth['B_field'] / truth['B_table']:g}"
+    c.count(f"g-table:B_field/B_table={r}:heights={len(truth['heights'])}" + ("" if any(abs(h - truth["h_eq"]) < 1e-9 * h for h in truth["heights"]) else ":interpolated"))
+    dev = max((abs(a - b_) for a, b_ in zip(gy, py)), default=0.0) if (len(px) == len(gx) and px == gx) else float("inf")
+    c.gdev = max(c.gdev, dev if dev != float("inf") else 0.0)
+    if dev > 1e-9:
+        c.fail.append(("g-similarity-lookup", f"grab_g_function(B_field/H) (B_field={truth['B_field']}, B_table={truth['B_table']}, H={truth['H']}) differs from the stored family "
+                       f"interpolated at h_eq = H*B_table/B_field = {truth['h_eq']}: " + (f"max |dg| = {dev:.3e}" if dev != float("inf") else "different abscissae"),
+                       {"cfg": replay_cfg, "heights": truth["heights"], "h_eq": truth["h_eq"]}))
+    return gx, gy
 
 
 # geometry the harness hands to the package (ghelib.media uses the same numbers)
@@ -224,17 +269,23 @@ def build(cfg):
     coords = make_coords(rng, n)
     lt = eskilson_log_times()
     h = phys["borehole"][0]
-    heights = [h] if cfg["heights"] == 1 else [h * 0.8, h, h * 1.25]
+    # the table is stored for spacing B_TABLE; the field has spacing B_TABLE * b_ratio.  The documented B/H similarity
+    # says the curve to use is the stored family at the equivalent height h_eq = H * B_table / B_field.
+    ratio = float(cfg.get("b_ratio", 1.0))
+    b_field = B_TABLE * ratio
+    h_eq = h * B_TABLE / b_field
+    hf = cfg.get("height_factors") or ([1.0] if (cfg["heights"] == 1 and ratio == 1.0) else [0.8, 1.0, 1.25])
+    heights = [h_eq * f for f in hf]
     base = synth_lts(rng, lt, cfg.get("g0", 2.5), n, cfg.get("monotone", True))
-    g_lts = {hh: [v * (1.0 + 0.15 * (hh - h) / h) for v in base] for hh in heights}
-    gf = GFunction(b=5.0, d=borehole.D, r_b_values={hh: borehole.r_b for hh in heights}, g_lts=g_lts,
+    g_lts = {hh: [v * (hh / h_eq) ** 0.45 + 0.3 * (hh / h_eq - 1.0) for v in base] for hh in heights}  # curves differ with height
+    gf = GFunction(b=B_TABLE, d=borehole.D, r_b_values={hh: borehole.r_b for hh in heights}, g_lts=g_lts,
                    log_time=lt, bore_locations=coords)
     sim = SimulationParameters(cfg["m0"], cfg["m1"], 35.0, 5.0, max(h, 135.0), min(h, 60.0))
     v = phys["flow"]
     loads = ghelib.make_profile(random.Random(cfg["seed"] + 1), cfg.get("profile", "constant"), cfg.get("scale", 1.0))[2]
     with ghelib.quiet(), warnings.catch_warnings():
         warnings.simplefilter("ignore")
-        ghe = GHE(v * n, 5.0, bt, fluid, borehole, pipe, grout, soil, gf, sim, loads)
+        ghe = GHE(v * n, b_field, bt, fluid, borehole, pipe, grout, soil, gf, sim, loads)
     if "loads" in cfg:  # the constructor's HybridLoad needs a full year; the hourly method takes any list
         ghe.hourly_extraction_ground_loads = [float(x) for x in cfg["loads"]]
     elif "loads_gen" in cfg:  # [length, seed, amplitude]: a reproducible random list
@@ -244,6 +295,8 @@ def build(cfg):
     truth = {
         "N": n, "H": h, "k": phys["soil"][0], "rhoCp": phys["soil"][1], "Tg": phys["soil"][2],
         "mdot": v / 1000.0 * fluid.rho, "cp": fluid.cp, "source": "object",
+        "B_table": B_TABLE, "B_field": b_field, "h_eq": h_eq, "heights": heights, "log_time": [float(x) for x in lt],
+        "g_lts": [list(g_lts[hh]) for hh in heights],
     }
     try:  # m_dot, c_p, R_b* from the user-level inputs, independently of the package
         truth["indep"] = independent_thermal(cfg)
@@ -471,7 +524,7 @@ def _check_formula(c, o, eft, dtb, steps, what, replay):
         fw = float(want)
         c.maxerr = max(c.maxerr, abs(eft[i - 1] - fw) / max(1.0, abs(fw)))
         if not close(eft[i - 1], fw, sa) or not close(dtb[i - 1], float(wd), sa):
-            c.fail.append((f"{what}-formula", f"{what} step {i}: hp_eft={eft[i-1]!r} dTb={dtb[i-1]!r}; the documented formula gives {fw!r}, {float(wd)!r}",
+            c.fail.append((f"{what}-formula", f"{what} step {i}: hp_eft={eft[i-1]!r} dTb={dtb[i-1]!r}; the documented formula gives {fw!r}, {float(wd)!r}{getattr(o, 'note', '')}",
                            dict(replay, step=i)))
             return False
     return True
@@ -552,8 +605,7 @@ def run_hyb(cfg):
             c.impl = ("raise", "ValueError")
     p = obj_params(ghe)
     check_thermal(c, cfg, truth, p)
-    g, _ = ghe.grab_g_function(ghe.B_spacing / float(ghe.bhe.b.H))
-    gx, gy = [float(v) for v in g.x], [float(v) for v in g.y]
+    gx, gy = g_tables(c, ghe, truth, {k: v for k, v in cfg.items() if k != "loads"})
     gfun = interp_fun(gx, gy)
     q = [float(v) * 1000.0 for v in load0[2:]]
     t = [float(v) for v in hour0[2:]]
@@ -591,6 +643,7 @@ def run_hyb(cfg):
     if list(ghe.times) != t or [float(v) for v in ghe.loading] != q:
         c.fail.append(("hyb-bookkeeping", "GHE.times / GHE.loading are not the simulated axis / loads", replay))
     o = Oracle(truth, truth.get("Rb", p["Rb"]), gx, gy, q, t)
+    o.note = f" [g: stored family at h_eq = H*B_table/B_field = {truth['h_eq']:g} m; B_field {truth['B_field']:g}, B_table {truth['B_table']:g}, H {truth['H']:g}]"
     if abs(o.ts - p["ts"]) > 1e-9 * p["ts"]:
         c.fail.append(("hyb-ts", f"characteristic time {p['ts']!r} is not H^2/(9 alpha) = {o.ts!r}", replay))
     _check_formula(c, o, eft, dtb, c.steps, "hybrid", replay)
@@ -691,8 +744,7 @@ def run_hr(cfg):
         c.impl = ("raise", "ValueError")
     p = obj_params(ghe)
     check_thermal(c, cfg, truth, p)
-    g, _ = ghe.grab_g_function(ghe.B_spacing / float(ghe.bhe.b.H))
-    gx, gy = [float(v) for v in g.x], [float(v) for v in g.y]
+    gx, gy = g_tables(c, ghe, truth, {k: v for k, v in cfg.items() if k != "loads"})
     gfun = interp_fun(gx, gy)
     # what the documentation says the hourly method simulates: rejection = -extraction, hour k ends at k,
     # the yearly profile repeated over the horizon
@@ -717,6 +769,7 @@ def run_hr(cfg):
             c.skip = "g-table-range"
             return c
         o = Oracle(truth, truth.get("Rb", p["Rb"]), gx, gy, q, t)
+        o.note = f" [g: stored family at h_eq = H*B_table/B_field = {truth['h_eq']:g} m; B_field {truth['B_field']:g}, B_table {truth['B_table']:g}, H {truth['H']:g}]"
         _check_formula(c, o, eft, dtb, c.steps, "hourly", replay)
         _check_sign(c, o, eft, c.steps, q, "hourly", replay)
         if (mx, mn) != (max(eft), min(eft)):
@@ -830,6 +883,9 @@ def base_cfg(rng, kind):
     if pipe == "COAXIAL" and rng.random() < 0.7:  # insulated inner pipe / enhanced outer pipe / poor outer pipe
         cfg["phys"]["pipe_k2"] = rng.choice([(0.1, 0.4), (0.4, 0.6), (0.6, 0.2), (round(rng.uniform(0.1, 0.6), 2), round(rng.uniform(0.2, 0.6), 2))])
     cfg["indep"] = rng.random() < 0.75  # formula fed with the independent m_dot, c_p, R_b* (else with the object's)
+    if kind != "det" and rng.random() < 0.45:  # field spacing different from the spacing the table is stored for
+        cfg["b_ratio"] = rng.choice([0.5, 2.0, 1.3, 0.8, 3.0, round(rng.uniform(0.4, 3.0), 2)])
+        cfg["height_factors"] = rng.choice([[0.5, 1.0, 2.0], [0.8, 1.0, 1.25], [0.7, 1.15, 1.6], [0.9, 1.4], [0.6, 1.0], [0.75, 0.9, 1.3]])
     return cfg
 
 
@@ -1056,7 +1112,8 @@ def run(ctx: core.Ctx):
     ctx.trusted_base += [
         "translator translate/gen_superpose.py (constants and statement shapes of GHE.simulate / _simulate_detailed) and translate/gen.py (BaseGHE.cost, SEC_IN_HR)",
         "hand-written model Model/Superpose.lean, tied to the code by the det/hyb/hr differential streams",
-        "g(ln(.)) enters as a parameter: the harness evaluates it with math.log and its own linear interpolation of the table interp1d holds",
+        "g(ln(.)) enters as a parameter: the harness evaluates it with math.log and its own linear interpolation of the DOCUMENTED table: the stored "
+        "long-time family interpolated in height at h_eq = H*B_table/B_field by the harness, joined with the object's short-time table (C10/C11 own those)",
         "pygfunction's secondary-coolant tables, film-coefficient / wall-conduction helpers and pipe classes (effective_borehole_thermal_resistance): the "
         "references for m_dot, c_p, R_b* are built from them out of the user-level inputs, without the package's GHEFluid / pipe classes",
         "numpy float rounding within 1e-9 relative (+1e-13 x sum of |terms|) of the exact rational value",
@@ -1117,6 +1174,7 @@ def run(ctx: core.Ctx):
         ctx.case(c.sig, nontrivial, sample)
         ctx.count("outcome:" + c.cfg["kind"] + ":" + (c.impl[0] if c.impl[0] == "ok" else c.impl[1]))
         ctx.extra["max_rel_error_vs_formula"] = max(ctx.extra.get("max_rel_error_vs_formula", 0.0), c.maxerr)
+        ctx.extra["max_abs_difference_documented_g_vs_package_lookup"] = max(ctx.extra.get("max_abs_difference_documented_g_vs_package_lookup", 0.0), c.gdev)
         ctx.extra["max_rel_disagreement_mdot_cp_Rb_vs_independent"] = max(ctx.extra.get("max_rel_disagreement_mdot_cp_Rb_vs_independent", 0.0), c.therm)
         for key, what, rep in c.fail:
             ctx.finding(key, what, dict(rep, cfg=c.cfg, how_to_replay="./check C09 --replay <this file>"))
